@@ -284,7 +284,7 @@ func (g *seqGen) genOp() seqOp {
 		}
 	case "BulkGet", "BulkRefresh":
 		op.V = g.val()
-		g.next += g.cfg.NK // bulk values are op.V + key
+		g.next += 2 * g.cfg.NK // bulk values are op.V + key (+ NK for the second loader invocation of the call)
 		op.Ks = g.keys()
 		op.Supply = g.supply(op.Ks)
 		op.Shape = pick(g.rng, "map", "map", "map", "map", "nil", "err")
